@@ -284,4 +284,222 @@ Section Image.
       + apply (gk_df _ _ _ _ G).
       + exact Hty.
   Qed.
+
+  (* ================================================================ *)
+  (* I. one iteration of _yield_runs                                  *)
+  (* ================================================================ *)
+  Lemma split_off offset j :
+    (offset + j) / 2 ^ cb = offset / 2 ^ cb + (offset mod 2 ^ cb + j) / 2 ^ cb /\
+    (offset + j) mod 2 ^ cb = (offset mod 2 ^ cb + j) mod 2 ^ cb.
+  Proof.
+    assert (Hp : 0 < 2 ^ cb) by (apply pow2_pos; lia).
+    pose proof (Z.div_mod offset (2 ^ cb) ltac:(lia)) as Hdm.
+    replace (offset + j) with (offset / 2 ^ cb * 2 ^ cb + (offset mod 2 ^ cb + j)) by lia.
+    split.
+    - rewrite Z.div_add_l by lia. reflexivity.
+    - rewrite Z.add_comm, Z.mod_add by lia. reflexivity.
+  Qed.
+
+  Lemma same_table c0 x :
+    0 <= x -> x < (2 ^ L - c0 mod 2 ^ L) * 2 ^ cb ->
+    (c0 + x / 2 ^ cb) / 2 ^ L = c0 / 2 ^ L /\
+    (c0 + x / 2 ^ cb) mod 2 ^ L = c0 mod 2 ^ L + x / 2 ^ cb.
+  Proof.
+    intros Hx Hlt. pose proof L_pos.
+    assert (Hp : 0 < 2 ^ cb) by (apply pow2_pos; lia).
+    assert (HpL : 0 < 2 ^ L) by (apply pow2_pos; lia).
+    apply unit_step; [lia| apply Z.div_pos; lia |].
+    apply Z.div_lt_upper_bound; [lia|]. lia.
+  Qed.
+
+  Lemma mod_div_swap o b s : 0 < b -> 0 < s -> (o mod (b * s)) / b = (o / b) mod s.
+  Proof.
+    intros Hb Hs. rewrite Z.rem_mul_r by lia.
+    rewrite (Z.mul_comm b), Z.add_comm. apply div_mul_add; [lia|]. apply Z.mod_pos_bound. lia.
+  Qed.
+
+  Lemma srcs_single s : srcs_of [s] = srcs_of_seg s.
+  Proof. unfold srcs_of. cbn [flat_map]. apply app_nil_r. Qed.
+
+  Section Step.
+    Variables (offset length : Z).
+    Hypothesis Hoff : 0 <= offset.
+    Hypothesis Hlen : 0 < length.
+    Let cs := 2 ^ cb.
+    Let oic := offset mod cs.
+    Let c0 := offset / cs.
+    Let l2i := c0 mod 2 ^ L.
+    Let bn := Z.min (length + oic) ((2 ^ L - l2i) * cs).
+
+    Lemma step_bounds : 0 < cs /\ 0 <= oic < cs /\ 0 <= l2i < 2 ^ L /\ oic < bn /\ bn - oic <= length /\
+                        bn <= (2 ^ L - l2i) * cs.
+    Proof.
+      pose proof L_pos.
+      assert (Hp : 0 < cs) by (apply pow2_pos; lia).
+      assert (HpL : 0 < 2 ^ L) by (apply pow2_pos; lia).
+      pose proof (Z.mod_pos_bound offset cs Hp). pose proof (Z.mod_pos_bound c0 (2 ^ L) HpL).
+      fold oic in H0. fold l2i in H1.
+      assert (cs <= (2 ^ L - l2i) * cs) by nia.
+      unfold bn. repeat split; lia.
+    Qed.
+
+    (* what the translated index helpers compute for this offset *)
+    Lemma step_indices :
+      offset_into_cluster q offset = oic /\ offset_to_l2_index q offset = l2i /\
+      offset_to_l1_index q offset = c0 / 2 ^ L /\
+      offset_to_sc_index q offset = (offset / 2 ^ B) mod S /\
+      Z.shiftl (g_l2_size q - offset_to_l2_index q offset) (g_cluster_bits q) = (2 ^ L - l2i) * cs.
+    Proof.
+      pose proof geo_ok as G. pose proof L_pos.
+      rewrite (into_cluster_eq q cb ext df G Hcb), (l2_index_eq q cb ext df G Hcb),
+              (l1_index_eq q cb ext df G Hcb), (sc_index_eq q cb ext df G Hcb).
+      repeat split; try reflexivity.
+      rewrite (gk_l2s _ _ _ _ G), (gk_cb _ _ _ _ G). rewrite Z.shiftl_mul_pow2 by lia. reflexivity.
+    Qed.
+
+    (* every byte of the step lies in the L2 table of the first one *)
+    Lemma step_table j : 0 <= j -> oic + j < (2 ^ L - l2i) * cs ->
+      (offset + j) / cs / 2 ^ L = c0 / 2 ^ L /\
+      ((offset + j) / cs) mod 2 ^ L = l2i + (oic + j) / cs /\
+      (offset + j) mod cs = (oic + j) mod cs.
+    Proof.
+      intros Hj Hlt. destruct (split_off offset j) as [Hd Hm]. fold cs oic c0 in Hd, Hm.
+      destruct step_bounds as (Hcs & Hoic & _).
+      destruct (same_table c0 (oic + j) ltac:(lia) Hlt) as [H1 H2]. fold cs in H1, H2.
+      rewrite Hd, H1, H2, Hm. repeat split; reflexivity.
+    Qed.
+
+    Lemma unalloc_step :
+      (i_l1 im (c0 / 2 ^ L) = None \/
+       exists l1e, i_l1 im (c0 / 2 ^ L) = Some l1e /\ Z.land l1e qcow2_L1E_OFFSET_MASK = 0) ->
+      let rc := bn - oic in
+      0 < rc <= length /\
+      srcs_of (seg_of_run im (T_UNALLOC_PLAIN, offset, 0, rc)) = map (guest_src im) (zseq offset rc).
+    Proof.
+      intros Hl rc. destruct step_bounds as (Hcs & Hoic & Hl2i & Hbn & Hrc & Hbn2).
+      split; [unfold rc; lia|].
+      assert (Hpt : forall o, offset <= o < offset + rc -> guest_src im o = unallocated sim o).
+      { intros o Ho. apply guest_src_no_l2.
+        destruct (step_table (o - offset) ltac:(lia) ltac:(unfold rc in Ho; lia)) as (H1 & _ & _).
+        replace (offset + (o - offset)) with o in H1 by lia. fold cs. rewrite H1. exact Hl. }
+      rewrite (map_ext_zseq _ _ _ _ Hpt).
+      unfold seg_of_run.
+      change (is_in T_UNALLOC_PLAIN qcow2_ZERO_SUBCLUSTER_TYPES) with false.
+      change (is_in T_UNALLOC_PLAIN qcow2_UNALLOCATED_SUBCLUSTER_TYPES) with true.
+      unfold unallocated. change (s_backing sim) with (i_backing im).
+      destruct (i_backing im); cbn [negb andb orb]; rewrite srcs_single; cbn [srcs_of_seg].
+      - reflexivity.
+      - symmetry. apply map_const_zseq.
+    Qed.
+
+    Section Entry.
+      Variables (l1e e0 bm0 ty count : Z).
+      Hypothesis Hl1e : i_l1 im (c0 / 2 ^ L) = Some l1e.
+      Hypothesis Hnz : Z.land l1e qcow2_L1E_OFFSET_MASK <> 0.
+      Let t := i_l2 im (Z.land l1e qcow2_L1E_OFFSET_MASK).
+      Let sc := (offset / 2 ^ B) mod S.
+      Hypothesis He0 : l2_entry q t l2i = Ok e0.
+      Hypothesis Hbm0 : l2_bitmap q t l2i = Ok bm0.
+      Hypothesis Hty : get_subcluster_type q e0 bm0 sc = Ok ty.
+      Hypothesis Hcount : count_contiguous_subclusters q (size_to_clusters q bn) sc t l2i = Ok count.
+      Let m0 := Z.land e0 qcow2_L2E_OFFSET_MASK.
+      Let rc := Z.min ((count + sc) * 2 ^ B) bn - oic.
+
+      Lemma S_pos' : 0 < S. Proof. unfold S. destruct ext; lia. Qed.
+
+      Lemma sc_oic : sc = oic / 2 ^ B /\ 0 <= sc < S.
+      Proof.
+        pose proof B_pos. pose proof S_pos'.
+        assert (Hp : 0 < 2 ^ B) by (apply pow2_pos; lia).
+        split; [|apply Z.mod_pos_bound; lia].
+        unfold sc, oic, cs. rewrite <- S_B. symmetry. apply mod_div_swap; lia.
+      Qed.
+
+      Lemma entry_facts :
+        valid_type ty /\ 1 <= count /\ (ty = T_COMPRESSED -> count + sc = S) /\
+        (forall p, sc <= p < count + sc -> at_pos q ext t l2i ty m0 p) /\ 0 < rc <= length.
+      Proof.
+        pose proof geo_ok as G. pose proof B_pos. pose proof S_pos' as HS.
+        destruct step_bounds as (Hcs & Hoic & Hl2i & Hbn & Hrc & Hbn2).
+        destruct sc_oic as [Hsc Hscr].
+        assert (Hp : 0 < 2 ^ B) by (apply pow2_pos; lia).
+        assert (Hnb : 0 < size_to_clusters q bn).
+        { rewrite (size_to_clusters_eq q cb ext df G Hcb). fold cs.
+          apply Z.lt_le_trans with 1; [lia|]. apply Z.div_le_lower_bound; lia. }
+        destruct (ccs_sound q cb ext df G Hcb t l2i sc ty m0 Hscr (size_to_clusters q bn) e0 bm0 count
+                    He0 Hbm0 Hty eq_refl Hnb Hcount) as (Hv & Hc1 & _ & Hcomp & Hpos).
+        split; [exact Hv|]. split; [exact Hc1|]. split; [exact Hcomp|]. split; [exact Hpos|].
+        pose proof (Z.div_mod oic (2 ^ B) ltac:(lia)) as Hdm.
+        pose proof (Z.mod_pos_bound oic (2 ^ B) Hp) as Hmb.
+        rewrite <- Hsc in Hdm.
+        assert (oic < (count + sc) * 2 ^ B) by nia.
+        unfold rc. lia.
+      Qed.
+
+      (* the expected source of the j-th byte of the run *)
+      Definition expected (j : Z) : src :=
+        if is_in ty qcow2_ZERO_SUBCLUSTER_TYPES then Zero
+        else if is_in ty qcow2_UNALLOCATED_SUBCLUSTER_TYPES then unallocated sim (offset + j)
+        else if ty =? T_COMPRESSED then Infl (descriptor e0) (oic + j)
+        else stored sim (m0 + oic + j).
+
+      Lemma entry_byte j : 0 <= j < rc -> guest_src im (offset + j) = expected j.
+      Proof.
+        intros Hj. pose proof geo_ok as G. pose proof B_pos. pose proof S_pos' as HS.
+        destruct step_bounds as (Hcs & Hoic & Hl2i & Hbn & Hrc & Hbn2).
+        destruct sc_oic as [Hsc Hscr].
+        destruct entry_facts as (Hv & Hc1 & Hcomp & Hpos & Hrcb).
+        assert (Hp : 0 < 2 ^ B) by (apply pow2_pos; lia).
+        set (x := oic + j).
+        assert (Hx1 : x < (count + sc) * 2 ^ B) by (unfold x, rc in *; lia).
+        assert (Hx2 : x < (2 ^ L - l2i) * cs) by (unfold x, rc in *; lia).
+        destruct (step_table j ltac:(lia) Hx2) as (Ht1 & Ht2 & Ht3). fold x in Ht2, Ht3.
+        set (p := x / 2 ^ B).
+        assert (Hp1 : sc <= p < count + sc).
+        { unfold p. split.
+          - rewrite Hsc. apply Z.div_le_mono; unfold x; lia.
+          - apply Z.div_lt_upper_bound; lia. }
+        assert (Hp2 : p / S = x / cs).
+        { unfold p. rewrite Z.div_div by lia. unfold cs. rewrite <- S_B. reflexivity. }
+        assert (Hp3 : p mod S = ((offset + j) / 2 ^ B) mod S).
+        { unfold p. pose proof (Z.div_mod offset cs ltac:(lia)) as Hdm. fold c0 oic in Hdm.
+          replace (offset + j) with (c0 * S * 2 ^ B + x).
+          2:{ unfold x. unfold cs in Hdm. rewrite <- S_B in Hdm. lia. }
+          rewrite Z.div_add_l by lia. rewrite Z.add_comm, Z.mod_add by lia. reflexivity. }
+        destruct (Hpos p Hp1) as (e & bm & He & Hbm & Hgst & Hmask).
+        change (if ext then 32 else 1) with S in He, Hbm, Hgst, Hmask.
+        rewrite Hp2 in He, Hbm, Hmask. rewrite Hp3 in Hgst.
+        assert (Hsrc : guest_src im (offset + j) = src_of_type sim ty e (offset + j)).
+        { apply byte_src with (l1e := l1e) (bm := bm).
+          - fold cs. rewrite Ht1. exact Hl1e.
+          - exact Hnz.
+          - fold cs t. rewrite Ht2. exact He.
+          - fold cs t. rewrite Ht2. exact Hbm.
+          - exact Hgst.
+          - exact Hv. }
+        rewrite Hsrc. unfold src_of_type, expected. cbv zeta. rewrite spec_cluster_size. fold cs. rewrite Ht3.
+        destruct (is_in ty qcow2_ZERO_SUBCLUSTER_TYPES) eqn:Hze; [reflexivity|].
+        destruct (is_in ty qcow2_UNALLOCATED_SUBCLUSTER_TYPES) eqn:Hun; [reflexivity|].
+        destruct (Z.eqb_spec ty T_COMPRESSED) as [Hc|Hnc].
+        - (* compressed: the run stays inside the cluster *)
+          specialize (Hcomp Hc).
+          assert (Hxc : x < cs) by (unfold cs; rewrite <- S_B; rewrite Hcomp in Hx1; lia).
+          assert (Hx0 : x / cs = 0) by (apply Z.div_small; unfold x; lia).
+          rewrite Hx0, Z.add_0_r in He. rewrite He0 in He. injection He as <-.
+          rewrite Z.mod_small by (unfold x; lia). reflexivity.
+        - (* normal: host offsets of the clusters of the run are contiguous *)
+          assert (Hty4 : ty = 4).
+          { destruct Hv as [Hv1 Hv2].
+            assert (Hcases : ty = 0 \/ ty = 1 \/ ty = 2 \/ ty = 3 \/ ty = 4 \/ ty = 5) by lia.
+            destruct Hcases as [-> | [-> | [-> | [-> | [-> | ->]]]]]; try reflexivity;
+              first [ vm_compute in Hze; discriminate Hze | vm_compute in Hun; discriminate Hun
+                    | exfalso; apply Hnc; reflexivity ]. }
+          assert (Hchk : is_in ty check_offset_types = true) by (rewrite Hty4; reflexivity).
+          specialize (Hmask Hchk). rewrite l2e_offset in Hmask.
+          rewrite (gk_cs _ _ _ _ G) in Hmask. fold cs in Hmask.
+          f_equal. rewrite Hmask.
+          pose proof (Z.div_mod x cs ltac:(lia)). unfold x in *. lia.
+      Qed.
+    End Entry.
+  End Step.
 End Image.
